@@ -1118,8 +1118,8 @@ pub trait QueryBuilder:
             Value::SmallUnsigned(Some(v)) => write!(s, "{v}").unwrap(),
             Value::Unsigned(Some(v)) => write!(s, "{v}").unwrap(),
             Value::BigUnsigned(Some(v)) => write!(s, "{v}").unwrap(),
-            Value::Float(Some(v)) => write!(s, "{v}").unwrap(),
-            Value::Double(Some(v)) => write!(s, "{v}").unwrap(),
+            Value::Float(Some(v)) => write!(s, "{v:?}").unwrap(),
+            Value::Double(Some(v)) => write!(s, "{v:?}").unwrap(),
             Value::String(Some(v)) => self.write_string_quoted(v, &mut s),
             Value::Char(Some(v)) => self.write_string_quoted(v.encode_utf8(&mut [0u8; 4]), &mut s),
             Value::Bytes(Some(v)) => self.write_bytes(v, &mut s),
